@@ -501,6 +501,8 @@ def canon_ops(upgrade_ops):
             else:
                 out.append({"kind": "dropUq", "schema": op.schema, "table": op.table_name, "name": op.constraint_name,
                             "sig": ",".join(sorted(col.name for col in c.columns))})
+        elif isinstance(op, (alembic_ops.CreateTableCommentOp, alembic_ops.DropTableCommentOp)):
+            out.append({"kind": "tableComment", "schema": op.schema, "table": op.table_name, "name": op.table_name, "sig": ""})
         else:
             out.append({"kind": "other:" + type(op).__name__, "schema": getattr(op, "schema", None),
                         "table": getattr(op, "table_name", ""), "name": None, "sig": ""})
